@@ -38,6 +38,9 @@ def one_history(h):
                 elif b.startswith('stallmany'):
                     # one silent client that stays, more than a thousand short connections meanwhile, and a validating client before it leaves
                     steps.append({'do': 'stall', 'count': 2, 'hold_ms': 1500, 'short_conns': int(b[9:] or 1100), 'valid_meanwhile': True})
+                elif b.startswith('linger'):
+                    # clients that complete their handshake and stay connected without a word while a validating client comes by
+                    steps.append({'do': 'linger', 'hold_ms': int(float(b[6:] or 3) * 1000)})
                 elif b.startswith('wait'):
                     # nothing happens for a while (failures spread over more than half a minute)
                     steps.append({'do': 'sleep', 'ms': int(float(b[4:]) * 1000)})
@@ -49,7 +52,7 @@ def one_history(h):
             steps.append({'do': 'valid', 'connect_tries': 3})
             # a generous deadline for the whole history: what it plays on purpose (waits, slow clients, shortages) plus ten seconds per step
             budget = 120 + 10 * len(steps) + sum(float(''.join(ch for ch in b if ch.isdigit() or ch == '.') or 0) for b in h['seq']
-                                                 if b.startswith(('slow', 'wait', 'fdflood')))
+                                                 if b.startswith(('slow', 'wait', 'fdflood', 'linger')))
             import subprocess
             try:
                 out = C.vtool('alpnclient', [{'target': listen, 'sni': h['want_name'], 'steps': steps, 'seed': h['i'] + 1,
@@ -70,10 +73,10 @@ def one_history(h):
                 res['fdflood'] = True
             # the stalled-connections behaviour embeds a valid handshake made while the others hang
             for s in st[:-1]:
-                if s.get('do') == 'stall' and s.get('connected') and s.get('meanwhile') is not None:
+                if s.get('do') in ('stall', 'linger') and s.get('connected') and s.get('meanwhile') is not None:
                     pb = T.judge_valid({'connected': True, 'result': s['meanwhile']}, h['want_name'], h['digest_hex'])
                     for p in pb:
-                        res['problems'].append('valid handshake during 50 stalled connections: %s' % p)
+                        res['problems'].append('valid handshake during %s: %s' % ('50 stalled connections' if s['do'] == 'stall' else 'the stay of clients whose handshake had completed', p))
             final = st[-1]
             alive = t.alive()
             rc = t.p.poll()
@@ -122,6 +125,8 @@ def gen_histories(tier):
     for e in EXTRA:
         seqs += [(e,), (e, e)] + [(e, c) for c in CATALOGUE] + [(c, e) for c in CATALOGUE]
     seqs += [('rst_close', 'tls_odd_sni'), ('tls_odd_sni', 'rst_close', 'stall')]
+    # clients that finish their handshake and linger (the others are still connected when the history ends)
+    seqs += [('linger3',), ('linger3', 'linger1'), ('tls_no_alpn', 'linger12'), ('linger1', 'http', 'linger3')] + [('linger2', c) for c in CATALOGUE[:3]]
     proofs = T.daemon_proofs(8, C.seed())
     hs = []
     for i, s in enumerate(seqs):
@@ -174,7 +179,7 @@ def run(tier):
     chk.exhaustive = exhaustive
     chk.rule = ('ordered selections of <= 4 behaviours from the 7-entry catalogue (all of length <= 2%s), each against a fresh '
                 'shipped-profile tacd, followed by a valid handshake; distinct = (history, listener) whose hostile '
-                'connections were all actually played; plus ALPN lists of up to 30000 names, a silent client kept while more than a thousand short connections come and go, fatal alerts after the ClientHello, storms of abortive closes, failures spread over more than 30 s, slow clients (40 connections silent for 6.5-35 s), descriptor shortages (100 clients against a responder limited to 64 descriptors), abortive closes and odd server names alone and paired with every entry' % (' plus all of length 3 and 4' if exhaustive else ' plus 150 random of length 3-4'))
+                'connections were all actually played; plus ALPN lists of up to 30000 names, a silent client kept while more than a thousand short connections come and go, fatal alerts after the ClientHello, storms of abortive closes, failures spread over more than 30 s, slow clients (40 connections silent for 6.5-35 s), clients that complete a handshake and stay connected in silence, descriptor shortages (100 clients against a responder limited to 64 descriptors), abortive closes and odd server names alone and paired with every entry' % (' plus all of length 3 and 4' if exhaustive else ' plus 150 random of length 3-4'))
     chk.assumptions = ['tacd binary built with the repository release profile (panic=abort)']
     return chk.finish()
 
